@@ -20,7 +20,9 @@ bits, clamping); non-trivial = length within the family. pairs/triples: complete
 triples over a boundary-dense domain D of valid prefixes (both families, lengths around every byte/word boundary, \
 addresses 0/all-ones/single bits/RFC1918-like patterns, + 16 (quick) / 96 (thorough) seed-derived ones); oracle = address-range model \
 on integers (covers), total-order laws (antisymmetry, transitivity, Equal iff ==), hash agreement, 'more specific sorts \
-before covering'; non-trivial = pair where one covers the other or they share a range boundary (distinct by \
+before covering'; all-lengths: complete enumeration of every pair of prefix lengths of a family (33 x 33, 129 x 129) x 5 base \
+addresses x 5 relations between the address parts (same, differing in the last bit of the shorter prefix, in the bit behind it, in the \
+first bit, in the last bit of the longer one) with the same pair oracle; non-trivial = pair where one covers the other or they share a range boundary (distinct by \
 construction, counted). origins: random triples of (prefix, max-len, asn) from D; oracle = key (prefix, resolved \
 max-len, asn). asnset: random ASN vectors with forced duplicates; oracle = BTreeSet; non-trivial = a duplicate present. construct also: Deserialize is a strict constructor (host bits set or length overflow => error; from a string, a JSON value, a reader), IpBlock::from(prefix) covers exactly the prefix's address range.";
 
@@ -403,6 +405,78 @@ fn make_triple_row(tier: Tier, seed: u64, idx: u64) -> Row {
     Row { thorough: th, seed, a: d[idx as usize], b: None, c: None, triples: true }
 }
 
+//------------ every pair of lengths --------------------------------------------
+
+/// Row of the complete (family, length a, length b) enumeration: for one family and one
+/// length of `a`, every length of `b` and every relation between the two address parts
+/// (same bits, differing in the last bit of the shorter prefix, in the bit just behind
+/// it, in the first bit, in the last bit of the longer prefix) over a few base addresses.
+#[derive(Clone, Debug, Serialize, Deserialize)]
+pub struct LenRow {
+    pub v6: bool,
+    pub la: u8,
+    /// Some: only this pair
+    pub only: Option<(Spec, Spec)>,
+}
+
+const LEN_BASES: [u128; 5] = [
+    0,
+    u128::MAX,
+    0xAAAA_AAAA_AAAA_AAAA_AAAA_AAAA_AAAA_AAAA,
+    0x2001_0db8_85a3_08d3_1319_8a2e_0370_7344,
+    0xC0A8_01FE_0A01_02FD_7F00_0001_E000_00FB,
+];
+
+fn count_len_rows(_: Tier, _: u64) -> u64 {
+    33 + 129
+}
+fn make_len_row(_: Tier, _: u64, idx: u64) -> LenRow {
+    if idx < 33 { LenRow { v6: false, la: idx as u8, only: None } } else { LenRow { v6: true, la: (idx - 33) as u8, only: None } }
+}
+
+fn run_len_row(r: &LenRow, obs: &mut Obs) -> CheckResult {
+    let bits: u32 = if r.v6 { 128 } else { 32 };
+    ensure!(r.la as u32 <= bits, "malformed case");
+    let mk = |raw: u128, len: u8| -> Spec {
+        // the family's bits of `raw`, right-aligned
+        let v = if r.v6 { raw } else { raw >> 96 };
+        Spec { v6: r.v6, addr: U128(v), len }.cleared()
+    };
+    let flip = |raw: u128, bit_from_top: u32| -> u128 {
+        // bit 1 = most significant bit of the family's address
+        if bit_from_top == 0 || bit_from_top > bits { raw } else { raw ^ (1u128 << (128 - bit_from_top)) }
+    };
+    let mut pairs: Vec<(Spec, Spec)> = Vec::new();
+    match r.only {
+        Some(p) => pairs.push(p),
+        None => {
+            for lb in 0..=bits as u8 {
+                let (short, long) = (r.la.min(lb) as u32, r.la.max(lb) as u32);
+                for &base in &LEN_BASES {
+                    for other in [base, flip(base, short), flip(base, short + 1), flip(base, 1), flip(base, long)] {
+                        pairs.push((mk(base, r.la), mk(other, lb)));
+                    }
+                }
+            }
+        }
+    }
+    let (mut evals, mut nt) = (0u64, 0u64);
+    for (a, b) in pairs {
+        let pa = a.strict().map_err(|e| Fail::new(format!("{:?} rejected: {}", a, e)))?;
+        let pb = b.strict().map_err(|e| Fail::new(format!("{:?} rejected: {}", b, e)))?;
+        evals += 1;
+        match check_pair(a, b, pa, pb) {
+            Ok(true) => nt += 1,
+            Ok(false) => {}
+            Err(f) => return Err(Fail::sig("pair-all-lengths", f.msg).with_case(json!({"v6": r.v6, "la": r.la, "only": [a, b]}))),
+        }
+    }
+    obs.evals(evals.saturating_sub(1));
+    obs.bulk_nontrivial = nt;
+    obs.label(if r.v6 { "v6" } else { "v4" });
+    Ok(())
+}
+
 //------------ origins ---------------------------------------------------------
 
 #[derive(Clone, Debug, Serialize, Deserialize)]
@@ -600,6 +674,7 @@ pub fn property() -> Property {
             .boxed(),
             EnumSub { name: "pairs", count: count_rows, make: make_pair_row, run: run_row, exhaustive: true }.boxed(),
             EnumSub { name: "triples", count: count_rows, make: make_triple_row, run: run_row, exhaustive: true }.boxed(),
+            EnumSub { name: "all-lengths", count: count_len_rows, make: make_len_row, run: run_len_row, exhaustive: true }.boxed(),
             PropSub {
                 name: "origins",
                 strategy: origin_strategy,
